@@ -545,7 +545,13 @@ func ruleSchemaCardSpec(c *Ctx) []Obligation {
 				case card == one && f.Slice:
 					obs = append(obs, bad(R, con, pos, fmt.Sprintf("RFC 7950 allows at most one %q under %q but the slot is multi-valued: a second occurrence is silently accepted", f.Keyword, kw)))
 				default:
-					o := ok(R, con, pos, fmt.Sprintf("RFC %s, slot %s", cardName(card), map[bool]string{true: "multi", false: "single"}[f.Slice]))
+					w := fmt.Sprintf("RFC %s, slot %s", cardName(card), map[bool]string{true: "multi", false: "single"}[f.Slice])
+					if card != one && !f.Slice && strings.HasSuffix(cardName(card), "n") {
+						// stricter than the RFC: not a violation of this property (the build fails, it does not
+						// mis-file), but legal YANG 1.1 is refused — stated so that the evidence does not hide it
+						w += " — stricter than RFC 7950: a second occurrence is refused with 'already set' although the grammar allows several (legal YANG is rejected, nothing is mis-filed)"
+					}
+					o := ok(R, con, pos, w)
 					obs = append(obs, o)
 				}
 			}
